@@ -178,6 +178,82 @@ def effect_outcome(run, ns):
     return [st, _canon_ns(ns)]
 
 
+SECOND_PYTHON = 'python3-vt'       # CPython 3.11 of the sandbox (no PEP 709 comprehension inlining)
+NOTES = {}                          # counters of oracle decisions, merged into res.dist by shard()
+
+
+def _note(key):
+    NOTES[key] = NOTES.get(key, 0) + 1
+
+
+def second_opinion(case):
+    """the canonical effect of exec()ing the ORIGINAL source on the context data under the other CPython of
+    the sandbox, or None when that interpreter is not available / fails"""
+    import os, shutil, subprocess
+    exe = shutil.which(SECOND_PYTHON)
+    if exe is None:
+        return None
+    script = os.path.join(os.path.dirname(os.path.dirname(os.path.abspath(__file__))), 'effect_second_opinion.py')
+    try:
+        p = subprocess.run([exe, '-B', script], input=json.dumps({'src': case['src'], 'data': case['data']}).encode('utf-8'),
+                           stdout=subprocess.PIPE, stderr=subprocess.PIPE, timeout=60)
+        if p.returncode != 0:
+            return None
+        ans = json.loads(p.stdout.decode('utf-8'))
+        if tuple(ans['version']) >= (3, 12):
+            return None
+        return ans['effect']
+    except Exception:  # noqa: no second opinion
+        return None
+
+
+INLINED_COMPS = (ast.ListComp, ast.SetComp, ast.DictComp)
+
+
+def inlining_sensitive(src):
+    """syntactic guard (used when no second interpreter is available): some function reads a name it does
+    not bind, and that name is also the iteration variable of a list / set / dict comprehension standing
+    directly in that function -- the shape on which CPython 3.12's comprehension inlining (PEP 709) turns
+    the read of the global into an UnboundLocalError"""
+    try:
+        tree = ast.parse(src)
+    except SyntaxError:
+        return False
+
+    def own_nodes(fn):
+        """nodes of the function's own scope, with the comprehensions standing directly in it"""
+        todo = list(fn.body) if isinstance(fn.body, list) else [fn.body]
+        comps, nodes = [], []
+        while todo:
+            n = todo.pop()
+            if isinstance(n, (ast.FunctionDef, ast.AsyncFunctionDef, ast.Lambda, ast.ClassDef)):
+                continue
+            if isinstance(n, INLINED_COMPS):
+                comps.append(n)
+                continue
+            nodes.append(n)
+            todo.extend(ast.iter_child_nodes(n))
+        return nodes, comps
+
+    for fn in ast.walk(tree):
+        if not isinstance(fn, (ast.FunctionDef, ast.AsyncFunctionDef, ast.Lambda)):
+            continue
+        nodes, comps = own_nodes(fn)
+        a = fn.args
+        bound = set(x.arg for x in a.posonlyargs + a.args + a.kwonlyargs + [y for y in (a.vararg, a.kwarg) if y])
+        bound |= set(n.id for n in nodes if isinstance(n, ast.Name) and not isinstance(n.ctx, ast.Load))
+        for c in comps:
+            itervars = set(n.id for g in c.generators for n in ast.walk(g.target) if isinstance(n, ast.Name))
+            outside = set(n.id for n in nodes if isinstance(n, ast.Name) and isinstance(n.ctx, ast.Load))
+            for c2 in comps:
+                if c2 is not c:
+                    outside |= set(n.id for n in ast.walk(c2) if isinstance(n, ast.Name) and isinstance(n.ctx, ast.Load))
+            outside |= set(n.id for n in ast.walk(c.generators[0].iter) if isinstance(n, ast.Name))
+            if (itervars & outside) - bound:
+                return True
+    return False
+
+
 def oracle_effect(case):
     """executing the code block has exactly the effect of executing the original code: same final
     namespace (or same exception and namespace at that point) as exec() of the source with the context
@@ -210,9 +286,25 @@ def oracle_effect(case):
     except (RecursionError, _Timeout):
         return None
     if got != want:
+        # "what Python computes" must not depend on the CPython version: CPython 3.12 inlines comprehensions
+        # (PEP 709) and then raises UnboundLocalError where the original program reads a global that is also
+        # the iteration variable of another comprehension of the same function (possibly swallowed by the
+        # program's own try/except, so the status alone does not show it).  Ask the other interpreter.
+        other = second_opinion(case)
+        if other is not None:
+            if _json_eq(other, got):
+                _note('effect:cpython-version-dependent')
+                return None
+        elif inlining_sensitive(src):
+            _note('effect:cpython-version-dependent:syntactic-guard')
+            return None
         return {'case': case, 'what': 'Suite(src).execute(data) has the effect of exec(src) on the context data',
                 'expected': want, 'observed': got}
     return None
+
+
+def _json_eq(a, b):
+    return json.loads(json.dumps(a)) == json.loads(json.dumps(b))
 
 
 # -- name resolution of code blocks against CPython's own compiler: every name the compiler resolves as a
@@ -451,6 +543,8 @@ HAND_SCOPE = [
     'def f():\n    def g(): return n\n    n = 5\n    return g()\n',
     'class K:\n    a = 1\n    def m(self): return a\n',
     'def f(a, /, b, *c, d, **e):\n    return (a, b, c, d, e, x)\n',
+    'def f():\n    import os.path\n    return os.path.sep\n',
+    'class A:\n    import os.path, m.x as y\n    s = (os, y)\n',
     'def f():\n    import os.path as p, sys\n    from os import sep\n    return (p, sys, sep, os)\n',
     'def f():\n    for i, (j, *k) in z:\n        pass\n    return (i, j, k)\n',
     'def f():\n    x = [a for a in b if a for c in a]\n    return (x, a, b, c)\n',
@@ -728,6 +822,140 @@ def compare_model(cases, res):
             res.disagreements.append({'stream': stream, 'case': c, 'model': repr(model)[:600], 'real': repr(want)[:600]})
 
 
+# --------------------------------------------------------------------------
+# statement mode of TemplateASTTransformer: Lean xformS / Python's scoping rule (specModule, freeGlobals)
+
+def _sym_tree(t):
+    """canonical per-scope summary of a symtable: (kind, name, names referenced as globals, children)"""
+    import _symtable as _st
+    kind = 'module' if t.get_type() == 'module' else ('class' if t.get_type() == 'class' else 'function')
+    # (the raw flags: Symbol.is_global() of Lib/symtable.py takes any table *named* "top" for the module)
+    gl = []
+    for name, flags in t._table.symbols.items():
+        scope = (flags >> _st.SCOPE_OFF) & _st.SCOPE_MASK
+        if flags & _st.USE and (kind == 'module' or scope in (_st.GLOBAL_IMPLICIT, _st.GLOBAL_EXPLICIT)):
+            gl.append(name)
+    gl.sort()
+    return [kind, t.get_name(), gl, sorted(_sym_tree(c) for c in t.get_children())]
+
+
+def _canon_tree(w):
+    """the Lean ScopeTree answer in the same canonical form (names de-duplicated and sorted)"""
+    kind, name, gl, ch = w
+    name = 'genexpr' if str(name) == 'listcomp' else str(name)
+    return [str(kind), name, sorted(set(str(g) for g in gl) - {'__class__'}), sorted(_canon_tree(c) for c in ch)]
+
+
+class _ListCompAsGenExp(ast.NodeTransformer):
+    """CPython 3.12 merges the symbol table of a list comprehension into the enclosing one (PEP 709); the
+    scoping rules of list comprehensions and generator expressions are the same, so the tables are taken
+    from the program with every list comprehension written as a generator expression"""
+
+    def visit_ListComp(self, node):
+        self.generic_visit(node)
+        return ast.GeneratorExp(node.elt, node.generators)
+
+
+def symtable_tree(tree):
+    import symtable
+    src = ast.unparse(ast.fix_missing_locations(_ListCompAsGenExp().visit(copy.deepcopy(tree))))
+    return _strip_implicit(_sym_tree(symtable.symtable(src, '<s>', 'exec')))
+
+
+def _strip_implicit(t):
+    """symtable artefacts that are no name loads of the program: wherever a function loads the name `super`
+    (even a parameter of that name: pyclbr._nest_class) symtable records an implicit use of `__class__`,
+    global when the function is not in a class; `__class__` is therefore not compared (on either side)"""
+    kind, name, gl, ch = t
+    return [kind, 'top' if kind == 'module' else name, [g for g in gl if g != '__class__'],
+            sorted(_strip_implicit(c) for c in ch)]
+
+
+STMT_OUTSIDE = ('Unsupported', 'Unmodelled', 'UnsupportedStmt', 'Global')
+
+
+def statement_programs(cases):
+    """(case, tree, wire of the body) of every exec-mode case that is inside the modelled syntax"""
+    out = []
+    for c in cases:
+        if c['mode'] != 'exec':
+            continue
+        try:
+            tree = ast.parse(c['src'])
+            w = [G.to_wire(st) for st in tree.body]
+        except (SyntaxError, ValueError, RecursionError, MemoryError):
+            continue
+        out.append((c, tree, w))
+    return out
+
+
+def compare_xformS(cases, res):
+    """four streams on statement programs:
+    xformS          Lean model of TemplateASTTransformer (scope stack over statements) vs the real transformer
+    specS           Python's scoping rule (Lean specModule, theorem xformS_eq_spec) vs the real transformer,
+                    on programs inside okModule
+    unxformS        the rewriting undone in the model gives back the program (theorem unxfS_xformS)
+    freeGlobals     Lean per-scope global references by Python's rule vs CPython's symtable (no genshi involved)"""
+    import symtable
+    from genshi.template.eval import TemplateASTTransformer
+    lines, meta = [], []
+    for c, tree, w in statement_programs(cases):
+        if has_atom(w, STMT_OUTSIDE):
+            res.count('xformS:outside-syntax')
+            continue
+        if has_annotation(w):
+            # PEP 695 type parameter lists (known finding C13-type-params): not part of the model, and
+            # symtable gives them an annotation scope of their own
+            res.count('xformS:type-params')
+            continue
+        if len(c['src']) > 6000:
+            res.count('xformS:skipped-large')       # (a whole stdlib class: the cost is in the wire coding)
+            continue
+        try:
+            sym = symtable_tree(tree)
+        except (SyntaxError, ValueError, RecursionError):
+            sym = None
+        try:
+            # (the transformer shares / updates some nodes of its input: `w` and `sym` were taken before)
+            real = [G.to_wire(st) for st in TemplateASTTransformer().visit(tree).body]
+        except RecursionError:
+            res.count('xformS:recursion-limit')
+            continue
+        wtext = proto.enc(w)
+        for verb in ('xformS', 'pySpecS', 'unxformS', 'freeGlobals'):
+            lines.append('C13 %s %s' % (verb, wtext))
+            meta.append((verb, c, w, real, sym))
+    answers = proto.run_lines(lines)
+    for (verb, c, w, real, sym), ans in zip(meta, answers):
+        if ans == 'unmodelled':
+            res.count(verb + ':unmodelled')
+            continue
+        if ans == 'outside':
+            res.count(verb + ':outside-domain')
+            continue
+        model = proto.dec(ans)
+        res.streams[verb] = res.streams.get(verb, 0) + 1
+        if verb in ('xformS', 'pySpecS'):
+            changed = model[1] != w
+            res.count('%s:%s' % (verb, 'rewrites' if changed else 'identity'))
+            if changed and verb == 'xformS':
+                res.nontrivial.add('xformS:' + (feature_key(c) or ''))
+            if model[1] != real:
+                res.disagreements.append({'stream': verb, 'case': c, 'model': repr(model[1])[:900], 'real': repr(real)[:900]})
+        elif verb == 'unxformS':
+            res.count('unxformS:ok')
+            if model[1] != w:
+                res.disagreements.append({'stream': verb, 'case': c, 'model': repr(model[1])[:900], 'real': repr(w)[:900]})
+        else:
+            if sym is None:
+                res.count('freeGlobals:no-symtable')
+                continue
+            spec = _canon_tree(model[1])
+            res.count('freeGlobals:ok')
+            if spec != sym:
+                res.disagreements.append({'stream': 'freeGlobals-vs-symtable', 'case': c, 'model': repr(spec)[:900], 'real': repr(sym)[:900]})
+
+
 def shard(arg):
     import random
     seed, idx, n_expr, n_stmt, files = arg
@@ -792,6 +1020,28 @@ def shard(arg):
         if st == 'bad':
             res.failures.append(oracle_scope(sc))
     compare_model(cases + corpus, res)
+    for k_, v_ in sorted(NOTES.items()):
+        res.count(k_, v_)
+    NOTES.clear()
+    # statement mode of the transformer: model, Python's scoping rule, symtable
+    sgen = G.ScopeGen(rng)
+    scope_cases = []
+    for _ in range(max(20, n_stmt)):
+        src = G.unparse_ok(sgen.program(), 'exec')
+        if src is not None:
+            scope_cases.append({'mode': 'exec', 'src': src, 'via': 'scope'})
+    for sc in scope_cases[:max(10, n_stmt // 2)]:
+        # the scope oracle (code objects of the real code vs CPython's own compilation) on the same programs
+        res.evaluations += 1
+        try:
+            st, problems = scope_problems(sc['src'])
+        except RecursionError:
+            continue
+        res.count('scope:' + st)
+        if st == 'bad':
+            res.failures.append(oracle_scope(sc))
+    compare_xformS(scope_cases + [c for c in cases if c['mode'] == 'exec'] + corpus
+                   + [{'mode': 'exec', 'src': s_, 'via': 'scope'} for s_ in scope_srcs[-n_eff:] + HAND_SCOPE], res)
     return res
 
 
@@ -823,10 +1073,19 @@ def search(ctx, res, broken):
     for d in res.disagreements[:300]:
         c = d.get('case')
         if isinstance(c, dict) and 'src' in c:
-            for via in ('raw', 'api'):
-                f = oracle_case(dict(c, via=via))
+            for via in ('raw', 'api') + (('scope',) if c.get('mode') == 'exec' else ()):
+                try:
+                    f = oracle_case(dict(c, via=via))
+                except RecursionError:
+                    continue
                 if f:
                     found.append(f)
+    if found:
+        return found
+    for s in HAND_SCOPE:
+        f = oracle_case({'mode': 'exec', 'via': 'scope', 'src': s})
+        if f:
+            found.append(f)
     if found:
         return found
     for m, s in HAND:
